@@ -281,6 +281,9 @@ func runChild(bin string, args []string, env []string, memMB int, timeout time.D
 			<-done
 		}
 	}
+	if ws, ok := cmd.ProcessState.Sys().(syscall.WaitStatus); ok && ws.Signaled() {
+		return -int(ws.Signal()), timedOut // -9: SIGKILL
+	}
 	return cmd.ProcessState.ExitCode(), timedOut
 }
 
@@ -479,6 +482,16 @@ func runShard(b *builder, m *merged, id, tier string, sd int64, lp lanePlan, sh 
 			m.inconc = append(m.inconc, fmt.Sprintf("%s lane shard %d died (exit %d) before its first case: %s", lp.Lane, sh, exit, deathSummary(log)))
 			m.mu.Unlock()
 			return
+		}
+		if exit == -int(syscall.SIGKILL) && strings.TrimSpace(log) == "" {
+			// killed from outside without a word: the kernel's out-of-memory killer picks whichever
+			// process is largest at that moment; nothing can be attributed to the case in flight
+			m.mu.Lock()
+			m.inconc = append(m.inconc, fmt.Sprintf("%s lane shard %d was killed by SIGKILL (out-of-memory killer?) while running case %d; resumed after it", lp.Lane, sh, cur))
+			m.restarts++
+			m.mu.Unlock()
+			from = cur + 1
+			continue
 		}
 		// the child died (or bailed out) while running case cur
 		if exit != 3 { // exit 3 = the child recorded the violation itself and asked to be resumed
